@@ -27,6 +27,12 @@ var pureLibrary = map[string]bool{
 	"bytes.NewReader":                      true,
 	"net/http.StatusText":                  true,
 	"(*net/http.Client).Do":                false,
+	"net/http.NewRequestWithContext":       false,
+	"net/http.Error":                       false,
+	"io.ReadAll":                           false,
+	"(net/http.Header).Set":                false,
+	"(io.Closer).Close":                    false,
+	"(io.ReadCloser).Close":                false,
 	"net/http.NewServeMux":                 true,
 	"unicode/utf8.ValidString":             true,
 	"(*math/rand.Rand).Intn":               false,
@@ -85,4 +91,40 @@ func init() {
 func (ex *Exec) isPureLibrary(full string) (pure bool, known bool) {
 	v, ok := pureLibrary[full]
 	return v, ok
+}
+
+// libraryPostFacts: documented postconditions of effectful library calls (trusted).
+func (ex *Exec) libraryPostFacts(p *Path, full string, out []Value) {
+	switch full {
+	case "(*net/http.Client).Do":
+		// "On success (err == nil) resp is non-nil and resp.Body is non-nil"
+		ex.c.Trust("net/http: Client.Do returns a non-nil response with a non-nil Body when err == nil")
+		if len(out) == 2 {
+			p.Assume(implies(ex.isNilTerm(out[1]), not(ex.isNilTerm(out[0]))))
+		}
+	case "net/http.NewRequestWithContext":
+		ex.c.Trust("net/http: NewRequestWithContext returns a non-nil request with a non-nil Header when err == nil")
+		if len(out) == 2 {
+			p.Assume(implies(ex.isNilTerm(out[1]), not(ex.isNilTerm(out[0]))))
+		}
+	}
+}
+
+// requestWellFormed: what net/http guarantees about the *http.Request handed to a handler.
+func (ex *Exec) requestWellFormed(p *Path, v Value) {
+	if !isNamedFrom(v.Ty, "net/http", "Request") {
+		return
+	}
+	ex.c.Trust("net/http: the *http.Request passed to a handler is non-nil and has non-nil URL, Header and Body")
+	p.Assume(not(ex.isNilTerm(v)))
+	ptr := v.Ty.Underlying().(*types.Pointer)
+	named := types.Unalias(ptr.Elem()).(*types.Named)
+	st := named.Underlying().(*types.Struct)
+	for i := 0; i < st.NumFields(); i++ {
+		f := st.Field(i)
+		if f.Name() == "URL" || f.Name() == "Body" {
+			fv := ex.heapRead(p, ex.heapKey(named, f.Name()), f.Type(), v.T)
+			p.Assume(not(ex.isNilTerm(fv)))
+		}
+	}
 }
